@@ -6,10 +6,11 @@
    prepare_stmt.go; [step s t c] = goroutine t performs its next action, the driver answering c;
    [run s sched] follows ANY list of (goroutine, driver answer): all theorems quantify over every
    program list (any number of goroutines and operations) and every schedule.
-   The state carries one constant flag [s_guard]: false = prepare_stmt.go as it is ([init]),
-   true = the proposed patch (guarded deletes, [init_g true]).
+   The state carries one constant flag [s_guard]: false = prepare_stmt.go before fix 3544058 ([init]),
+   true = with that fix (guarded deletes, [init_g true]; this is what /repo contains now).
    [reach progs s] := exists g sched, run (init_g g progs) sched = Some s: the positive theorems
-   hold for both variants; the refutations are schedules of [init] (the code as it is). *)
+   hold for both variants; the leak refutations are schedules of [init] (the code before the fix), the
+   transparency refutations are schedules of both variants (they involve no delete). *)
 From Verif Require Import Base C14_Model C14_Check C14_Proofs C14_Proofs2 C14_Proofs3 C14_Proofs4
   C14_Proofs5 C14_Proofs6 C14_Proofs7 C14_Proofs8 C14_Proofs9 C14_Proofs10.
 
@@ -88,10 +89,10 @@ Proof. exact failed_not_cached. Qed.
 Print Assumptions c14_failed_not_cached.
 
 (* ---- 4. every statement the cache prepared is eventually closed ----------------------------- *)
-(* REFUTED on the code as it is.  W1 (ErrBadConn after a Reset), W2 (failed Prepare after a
+(* REFUTED for the code before fix 3544058 ([init]).  W1 (ErrBadConn after a Reset), W2 (failed Prepare after a
    Reset), W4 (failed Tx-level Prepare after an upgrade, no Reset at all): all goroutines are
    done, the cache is closed, one pool-level statement was prepared and is never closed.  Each
-   schedule is replayed on the real gorm by corpus/C14 (KNOWN-FINDING stale-delete). *)
+   schedule is replayed on the real gorm by corpus/C14 (finding stale-delete, fixed by 3544058). *)
 Theorem c14_closed_eventually_refuted_badconn :
   exists s, run (init w1_progs) w1_sched = Some s /\ all_done s = true /\ s_map s = None
             /\ leaked s = [1] /\ s_stolen s = true.
@@ -110,7 +111,7 @@ Theorem c14_closed_eventually_refuted_upgrade :
 Proof. exact closed_eventually_refuted_w4. Qed.
 Print Assumptions c14_closed_eventually_refuted_upgrade.
 
-(* PARTIAL, with the exact missing hypothesis: as long as no delete(Stmts, query) removed an
+(* PARTIAL (for the unfixed variant), with the exact missing hypothesis: as long as no delete(Stmts, query) removed an
    entry that was not the deleter's own ([s_stolen] = false: "the entry at q is mine"), every
    successfully prepared pool-level statement is closed, or a spawned goroutine is about to close
    it, or an entry carries it that is in the current map or has a live closer ... *)
@@ -132,7 +133,7 @@ Theorem c14_leak_free_partial : forall progs s,
 Proof. exact leak_free_partial. Qed.
 Print Assumptions c14_leak_free_partial.
 
-(* With the proposed patch (delete(Stmts, query) only if the slot still holds the entry this
+(* With fix 3544058 (delete(Stmts, query) only if the slot still holds the entry this
    call created, resp. the entry carrying the statement this call used) the clause holds outright:
    for every program and every schedule, incl. failed Prepares and ErrBadConn. *)
 Theorem c14_closed_eventually_patched : forall progs sched s st q,
@@ -162,15 +163,15 @@ Print Assumptions c14_map_key_is_text.
    driver fault, and an operation fails with "sql: statement is closed" (KNOWN-FINDING
    close-races-use).  W5: a QueryRow after Close panics instead of reporting ErrInvalidDB
    (KNOWN-FINDING row-swallows-error). *)
-Theorem c14_transparent_refuted_reset :
-  exists s, run (init w3_progs) w3_sched = Some s /\ all_done s = true
+Theorem c14_transparent_refuted_reset : forall g,
+  exists s, run (init_g g w3_progs) w3_sched = Some s /\ all_done s = true
             /\ no_faults w3_sched /\ ~ has_close w3_progs
             /\ results s = [[RErrClosed]; [ROk]; []].
 Proof. exact transparent_refuted_w3. Qed.
 Print Assumptions c14_transparent_refuted_reset.
 
-Theorem c14_clean_error_refuted_queryrow :
-  exists s, run (init w5_progs) w5_sched = Some s /\ all_done s = true
+Theorem c14_clean_error_refuted_queryrow : forall g,
+  exists s, run (init_g g w5_progs) w5_sched = Some s /\ all_done s = true
             /\ results s = [[ROk]; [RPanic]].
 Proof. exact clean_error_refuted_w5. Qed.
 Print Assumptions c14_clean_error_refuted_queryrow.
